@@ -20,7 +20,7 @@ from vsim.tape import Tape, mix
 from vsim.world import World
 
 ID = "C07"
-RUNS = {"quick": 640, "thorough": 6400}
+RUNS = {"quick": 960, "thorough": 9600}
 WALL = {"quick": 3600, "thorough": 8 * 3600}
 
 CLI_CMDS = ["blocking-async", "clone-abuse", "dry", "file-header", "file-placement", "improper-logging",
